@@ -100,6 +100,7 @@ class Ctx:
         self.notes: list[str] = []
         self.ghost: dict[str, Any] = {}      # ghost state (traces, counters)
         self.depth = 0
+        self.lemmas: list = []               # quantified facts used only when an obligation is proved (never for path feasibility)
 
     # --- symbols ---------------------------------------------------------
     def fresh_name(self, base: str) -> str:
@@ -130,10 +131,36 @@ class Ctx:
         self.pc.append(f)
         self.solver.add(f)
 
+    def lemma(self, f):
+        """A (typically quantified) assumption that is handed to the solver only with proof obligations.  Path feasibility is
+        decided without it, which over-approximates the feasible paths (sound) and keeps branch queries quantifier-free."""
+        self.lemmas.append(f)
+
     # --- solver ------------------------------------------------------------
-    def _check(self, *extra) -> str:
+    def _check(self, *extra, with_lemmas=False) -> str:
         t0 = time.time()
-        r = self.solver.check(*extra)
+        if with_lemmas and self.lemmas:
+            # 1. E-matching only (the lemmas carry triggers): fast and stable for valid obligations
+            s1 = z3.Solver()
+            s1.set('auto_config', False)
+            s1.set('smt.mbqi', False)
+            s1.set('timeout', Z3_TIMEOUT_MS)
+            s1.add(*self.pc)
+            s1.add(*self.lemmas)
+            r = s1.check(*extra)
+            if r != z3.unsat:
+                # 2. with model-based instantiation, which can also produce counter-models
+                self.solver.push()
+                self.solver.add(*self.lemmas)
+                r = self.solver.check(*extra)
+                if r == z3.sat:
+                    try:
+                        self._lemma_model = self.solver.model()
+                    except z3.Z3Exception:
+                        self._lemma_model = None
+                self.solver.pop()
+        else:
+            r = self.solver.check(*extra)
         dt = time.time() - t0
         st = self.ex.stats
         st.queries += 1
@@ -143,6 +170,8 @@ class Ctx:
         if res == 'unknown' and self.ex.use_cvc5:
             s2 = z3.Solver()
             s2.add(*self.pc)
+            if with_lemmas:
+                s2.add(*self.lemmas)
             s2.add(*extra)
             t0 = time.time()
             res = _cvc5_check(s2.to_smt2().replace('(check-sat)', ''))
@@ -151,6 +180,16 @@ class Ctx:
         st.by_backend[backend] = st.by_backend.get(backend, 0) + 1
         self.last_backend = backend
         return res
+
+    def consistent(self) -> bool:
+        """Vacuity guard: the path condition together with the lemmas is not refuted by E-matching instantiation."""
+        s1 = z3.Solver()
+        s1.set('auto_config', False)
+        s1.set('smt.mbqi', False)
+        s1.set('timeout', 2000)
+        s1.add(*self.pc)
+        s1.add(*self.lemmas)
+        return s1.check() != z3.unsat
 
     def feasible(self, f=None) -> bool:
         """May f hold on this path? 'unknown' counts as feasible (sound over-approximation)."""
@@ -236,16 +275,25 @@ class Ctx:
         return d
 
     # --- obligations ------------------------------------------------------
-    def prove(self, name: str, f, detail: str = '') -> bool:
-        """Named proof obligation: pc => f."""
+    def prove(self, name: str, f, detail: str = '', use_lemmas: bool = True) -> bool:
+        """Named proof obligation: pc (and the lemmas) => f."""
         t0 = time.time()
         model = None
         backend = 'z3'
         trivial = False
+        use_lemmas = use_lemmas and bool(self.lemmas)
         if f is True:
             verdict = 'discharged'
             trivial = True
             backend = 'partial-eval'
+        elif f is False and use_lemmas:
+            # the path was followed without the lemmas: it counts only if it is feasible with them
+            r = self._check(with_lemmas=True)
+            backend = self.last_backend
+            if r == 'unsat':
+                return True
+            verdict = 'refuted' if r == 'sat' else 'undecided'
+            model = self._render_model(getattr(self, '_lemma_model', None)) if r == 'sat' and backend == 'z3' else None
         elif f is False:
             verdict = 'refuted'
             trivial = True
@@ -258,22 +306,25 @@ class Ctx:
                 trivial = True
                 backend = 'partial-eval'
             else:
-                r = self._check(z3.Not(fs))
+                r = self._check(z3.Not(fs), with_lemmas=use_lemmas)
                 backend = self.last_backend
                 if r == 'unsat':
                     verdict = 'discharged'
                 elif r == 'sat':
                     verdict = 'refuted'
-                    model = self._get_model() if backend == 'z3' else self._model_of(z3.Not(fs))
+                    if use_lemmas:
+                        model = self._render_model(getattr(self, '_lemma_model', None)) if backend == 'z3' else None
+                    else:
+                        model = self._get_model() if backend == 'z3' else self._model_of(z3.Not(fs))
                 else:
                     verdict = 'undecided'
         ob = Obligation(name, verdict, backend, time.time() - t0, tuple(self.decisions), detail, model, trivial)
         self.ex.record(ob)
         return verdict == 'discharged'
 
-    def fail(self, name: str, detail: str = ''):
+    def fail(self, name: str, detail: str = '', use_lemmas: bool = True):
         """An obligation that is violated on this (feasible) path."""
-        return self.prove(name, False, detail)
+        return self.prove(name, False, detail, use_lemmas=use_lemmas)
 
     def ok(self, name: str, detail: str = ''):
         return self.prove(name, True, detail)
@@ -284,6 +335,9 @@ class Ctx:
         except z3.Z3Exception:
             return None
         return _model_dict(m)
+
+    def _render_model(self, m):
+        return _model_dict(m) if m is not None else None
 
     def _model_of(self, extra):
         s = z3.Solver()
